@@ -251,15 +251,11 @@ Proof.
 Qed.
 
 Lemma calc_levels_ok :
-  0 < n ->
   exists levels ld, calc_levels n parents children tops = LOk (levels, ld) /\
                     length levels = n /\ forall v, v < n -> lev levels v = Z.of_nat (h v).
 Proof.
-  intro Hn. destruct calc_loop_levels as (levels & E & Len & Hl).
-  unfold calc_levels. rewrite E.
-  destruct levels as [|z0 zs] eqn:EL; [cbn in Len; lia|]. rewrite <- EL in *.
-  assert (Z : zmax_list levels = Some (fold_left Z.max zs z0)) by (rewrite EL; reflexivity).
-  rewrite Z.
+  destruct calc_loop_levels as (levels & E & Len & Hl).
+  unfold calc_levels. rewrite E. cbv zeta.
   assert (NN : existsb (fun z => Z.ltb z 0) levels = false).
   { destruct (existsb (fun z => Z.ltb z 0) levels) eqn:X; [|reflexivity]. exfalso.
     apply existsb_exists in X. destruct X as (z & Hz & Lz). apply Z.ltb_lt in Lz.
@@ -475,12 +471,10 @@ Proof.
 Qed.
 
 Theorem levels_longest_chain :
-  0 < n ->
   exists levels ld,
     calc_levels n parents children tops = LOk (levels, ld) /\ length levels = n /\
     forall v, v < n -> exists k, lev levels v = Z.of_nat k /\ is_height n leq v k.
 Proof.
-  intro Hn.
   destruct (calc_levels_ok n parents children tops hgt) as (levels & ld & E & Len & Hl); auto.
   - intros t Ht. apply tops_spec in Ht. tauto.
   - apply top_iff_parents.
